@@ -101,6 +101,32 @@ def motif_ep_origin(rng):
     return chessgen.board_to_fen(board, wtm, "-", "abcdefgh"[x] + str(y_e + 1), 0, 20)
 
 
+def motif_ep_two_capturers(rng):
+    """e.p. square with enemy pawns on BOTH sides of the double-pushed pawn, one of them pinned on its file (its e.p. capture is
+    illegal, the other one's is legal): the e.p. square is valid only because of the second capturer"""
+    board = [None] * 64
+    wtm = rng.random() < 0.5                     # side to move in Q = the capturing side
+    x = rng.randrange(1, 7)
+    y_p, y_e = (4, 5) if wtm else (3, 2)
+    P, p, K, k = ("P", "p", "K", "k") if wtm else ("p", "P", "k", "K")
+    board[y_p * 8 + x] = p
+    board[y_p * 8 + x - 1] = P; board[y_p * 8 + x + 1] = P
+    px = x + rng.choice([-1, 1])                 # the pinned capturer's file
+    below = list(range(0, y_p)) if wtm else list(range(y_p + 1, 8))      # own king behind the pawn, enemy rook / queen in front
+    above = list(range(y_p + 1, 8)) if wtm else list(range(0, y_p))
+    ky, ry = rng.choice(below), rng.choice(above)
+    board[ky * 8 + px] = K
+    board[ry * 8 + px] = rng.choice("rq") if wtm else rng.choice("RQ")
+    free = [q for q in range(64) if board[q] is None and q % 8 != px and q != y_e * 8 + x and q != (y_e + (1 if wtm else -1)) * 8 + x]
+    kq = rng.choice([q for q in free if abs(q % 8 - px) > 1 or abs(q // 8 - ky) > 1])
+    board[kq] = k
+    for _ in range(rng.randrange(0, 6)):
+        q = rng.choice(free)
+        if board[q] is None and 8 <= q < 56: board[q] = rng.choice("nbNBpP")
+        elif board[q] is None: board[q] = rng.choice("nbNB")
+    return chessgen.board_to_fen(board, wtm, "-", "abcdefgh"[x] + str(y_e + 1), 0, 20)
+
+
 def par_lines(binary, lines, nproc=None, chunk=400):
     """run `lines` through `binary`, split over processes; returns (ok, outputs, stderr)"""
     n = max(1, min(nproc or min(vlib.NCPU, 12), len(lines) // chunk + 1))
@@ -270,6 +296,7 @@ def run(ctx):
     syn = [f for f in chessgen.synthetic(ctx.rng, 1500 if quick else 60000)]
     syn += [f for f in (motif_uncastle(ctx.rng) for _ in range(1200 if quick else 40000)) if f]
     syn += [motif_ep_origin(ctx.rng) for _ in range(300 if quick else 6000)] + EP_ORIGIN_PROBES
+    syn += [motif_ep_two_capturers(ctx.rng) for _ in range(300 if quick else 6000)]
     ok, o, err = par_lines(vh, [f"chess fen {f}" for f in syn])
     acc = [x[3:] for x in o if x.startswith("ok ")] if ok else []
     acc = list({key_of(q): q for q in acc}.values())
